@@ -19,6 +19,8 @@ def run(tier, wd):
     tc.add_tree(rep, wd, binpath, alphabet, ["continue", "exit", "panic"], "c07-policy", T.policy_tree(), trs, rows)
     # a multi-valued Int option: every written value must be convertible (numerals padded with blanks are not)
     tc.add_tree(rep, wd, binpath, alphabet, ["continue", "exit", "panic"], "c07-ints", T.ints_tree(), trs, rows)
+    # a string-valued option next to a lone dash, an Int argument, folded groups in front of a sub command name
+    tc.add_tree(rep, wd, binpath, alphabet, ["continue", "exit", "panic"], "c07-cluster", T.cluster_tree(), trs, rows)
     kinds, by_level = {}, {}
     nontriv = 0
     for c, r in rows:
